@@ -23,6 +23,19 @@ fn key_lit(rng: &mut Rng, i: usize) -> Lit {
     }
 }
 
+/// keys that a sloppy comparator (case-folding, trimming, numeric, by length, by display text) would tie
+const CONFUSABLE: &[&[&str]] = &[
+    &["rock", "Rock", "ROCK", "rocK"],
+    &["a", "a ", " a", "A", "a\t"],
+    &["1", "01", "1.0", "1e0", "+1", " 1"],
+    &["true", "True", "null", "mysterious", "false"],
+    &["é", "É", "e\u{301}", "e"],
+    &["ab", "abc", "abd", "b", "ba"],
+    &["ß", "ss", "SS", "ẞ"],
+    &["", " ", "  ", "\u{a0}"],
+    &["k10", "k9", "k09", "K10"],
+];
+
 pub fn dict_program(rng: &mut Rng) -> (Program, usize) {
     let d = simple("Dict");
     let e = simple("Elsa");
@@ -33,8 +46,13 @@ pub fn dict_program(rng: &mut Rng) -> (Program, usize) {
         ss.push(Stmt::Push { array: pvar(&d), value: Some(PushRhs::List(vec![strlit("first"), strlit("second")])) });
     }
     let mut used: Vec<Lit> = Vec::new();
+    let family = if rng.chance(1, 3) { Some(*rng.pick(CONFUSABLE)) } else { None };
     for i in 0..nkeys {
-        let k = key_lit(rng, i);
+        let k = match family {
+            // mostly members of one confusable family, with the other key kinds of the same spelling mixed in
+            Some(f) if !rng.chance(1, 5) => Lit::Str(rng.pstr(f).to_string()),
+            _ => key_lit(rng, i),
+        };
         if used.contains(&k) {
             continue;
         }
